@@ -2,6 +2,9 @@ use crate::infra::*;
 use serde_json::Value;
 
 pub mod c01;
+pub mod c05;
+pub mod dd;
+pub mod par;
 
 pub struct PropDef {
     pub id: &'static str,
@@ -11,7 +14,7 @@ pub struct PropDef {
 }
 
 pub fn all() -> Vec<PropDef> {
-    vec![c01::def()]
+    vec![c01::def(), dd::def_c06(), dd::def_c07(), dd::def_c08(), c05::c05::def(), c05::c19::def(), par::def_c03(), par::def_c04()]
 }
 pub fn find(id: &str) -> Option<PropDef> {
     all().into_iter().find(|d| d.id == id)
